@@ -18,6 +18,8 @@ type propFn func(c *Check)
 
 var registry = map[string]propFn{}
 
+var mutFuncs = map[string]bool{}
+
 func register(id string, f propFn) { registry[id] = f }
 
 func main() {
@@ -120,8 +122,15 @@ func main() {
 				}
 			}
 			if *mutgen != "" {
-				n, err := writeMutants(c, *mutgen)
-				fmt.Println("mutants written:", n, err)
+				// the union of the functions all requested properties looked at, written once after the last one
+				for f := range c.funcs {
+					mutFuncs[f] = true
+				}
+				if id == ids[len(ids)-1] {
+					c.funcs = mutFuncs
+					n, err := writeMutants(c, *mutgen)
+					fmt.Println("mutants written:", n, err)
+				}
 				continue
 			}
 			if rc := c.finish(*verif, findings, seed, tc, problems, cfgNames, *only); rc != 0 {
